@@ -297,7 +297,14 @@ func (w *worker) env(n int) *h.Env {
 		if it.C != nil {
 			c = *it.C
 		}
-		e.MustExec("INSERT INTO items (id,a,b,c,l,p) VALUES (?,?,?,?,?,?)", it.ID, it.A, it.B, c, labelsText(it.L), metaText(it.P))
+		var s, k interface{}
+		if !sNull(it.ID) {
+			s = it.S
+		}
+		if !kNull(it.ID) {
+			k = it.K
+		}
+		e.MustExec("INSERT INTO items (id,a,b,c,s,k,l,p) VALUES (?,?,?,?,?,?,?,?)", it.ID, it.A, it.B, c, s, k, labelsText(it.L), metaText(it.P))
 	}
 	w.envs[n] = e
 	w.pristine[n] = e.Dump("items")
@@ -737,7 +744,7 @@ func main() {
 	ck.N = N
 	budget := 90 * time.Second
 	if args.Tier == "thorough" {
-		budget = 9 * time.Minute
+		budget = 9*time.Minute + 40*time.Second
 	}
 	deadline := run.Start.Add(budget)
 	var timedOut int32
